@@ -661,13 +661,13 @@ def write_pdf(matrix, matrix_size, out, scale=1, border=None, dark='#000',
     creation_date = f"{time.strftime('%Y%m%d%H%M%S')}{(time.timezone // 3600):+03d}'{(abs(time.timezone) % 60):02d}'"
     cmds = []
     append_cmd = cmds.append
-    if scale != 1:
-        append_cmd(f'{scale} 0 0 {scale} 0 0 cm')
     if light is not None:
         # If the background color is defined, a rect is drawn in the background
         append_cmd('{} {} {} rg'.format(*to_pdf_color(light)))
         append_cmd(f'0 0 {width} {height} re')
         append_cmd('f')
+    if scale != 1:
+        append_cmd(f'{scale} 0 0 {scale} 0 0 cm')
     # Set the stroke color only iff it is not black (default)
     if not _color_is_black(dark):
         append_cmd('{} {} {} RG'.format(*to_pdf_color(dark)))
